@@ -300,7 +300,7 @@ META = {
                   'honours a VALID source; each of the visit_* methods FortranCodegenConservative defines is executed from '
                   'its real source on a node with a VALID source of arbitrary text and returns exactly that text without '
                   'visiting a child (inline comments: the comment part); Source.invalidate / is_valid / clone follow the '
-                  'three-state status and never touch the object they were cloned from.',
+                  'three-state status and never touch the object they were cloned from. Transformer._rebuild (the specs of contracts/C14.py, an obligation of both properties) invalidates the source of a node whose child node was rebuilt, in place or not.',
     'level_note': 'Known finding: 37 node classes (WhileLoop, MultiConditional, TypeConditional, MaskedStatement, Associate, '
                   'TypeDef, Interface, Allocation, Deallocation, Nullify, the GenericStmt family, ...) are dispatched to '
                   'regenerating handlers of FortranCodegen / Stringifier that shadow the conservative visit_Node, so a still '
